@@ -187,6 +187,67 @@ def check_case(kind, depth, acc, apex, cs, part, full_cache):
             bad("subpyramid-vs-full", "sub-pyramid visits %d leaves / %d parents, the full pyramid has %d / %d below the apex" % (len(lset), len(ops), len(want_l), len(want_o)))
 
 
+def deep_case(kind, depth, apex, cs, part):
+    """Deep pyramids (depth 8..12, where toasty switches on its 'big pyramid' code paths) restricted to an
+    apex near the leaves: counts, visited leaves and walked parents against the closed forms and the
+    explicit descendant sets."""
+    from toasty.pyramid import depth2tiles, tiles_at_depth
+
+    cfg = {"kind": kind, "depth": depth, "accepted": None, "apex": apex, "coordsys": cs, "deep": True}
+    part.case(nontrivial=True)
+
+    def bad(clause, detail):
+        part.violation("%s/%s/deep" % (clause, kind), "%r: %s" % (cfg, detail), cfg)
+
+    def below(level):
+        s = level - apex[0]
+        return [(level, apex[1] * 2**s + i, apex[2] * 2**s + j) for j in range(2**s) for i in range(2**s)]
+
+    want_leaves = sorted(below(depth))
+    want_ops = sorted(p for lv in range(apex[0], depth) for p in below(lv))
+    sub = depth - apex[0]
+    closed = (tiles_at_depth(sub), depth2tiles(sub), depth2tiles(sub - 1) if sub >= 1 else 0)
+
+    def mk():
+        return stages.make_pyramid(kind, depth, None, apex, cs)
+
+    try:
+        with quiet():
+            counts = (mk().count_leaf_tiles(), mk().count_live_tiles(), mk().count_operations())
+            leaves, ops = [], []
+            mk().visit_leaves(lambda pos, tile: leaves.append(tuple(pos)), parallel=1)
+            mk().walk(lambda pos: ops.append(tuple(pos)), parallel=1)
+    except Exception as e:
+        bad("raises:%s" % type(e).__name__, repr(e))
+        return
+    if counts != closed or counts != (len(want_leaves), len(want_leaves) + len(want_ops), len(want_ops)):
+        bad("counts-vs-reference", "counts %r, closed form %r" % (counts, closed))
+    if sorted(leaves) != want_leaves:
+        bad("leaf-set", "visit_leaves made %d callbacks, %d leaves lie below the apex; differing: %r" % (len(leaves), len(want_leaves), sorted(set(leaves) ^ set(want_leaves))[:3]))
+    if sorted(ops) != want_ops:
+        bad("walk-set", "walk made %d callbacks, %d parents lie at or below the apex; differing: %r" % (len(ops), len(want_ops), sorted(set(ops) ^ set(want_ops))[:3]))
+    idx = {p: i for i, p in enumerate(ops)}
+    for p in ops:
+        for c in quadtree.children(p):
+            c = tuple(c)
+            if c in idx and idx[c] > idx[p]:
+                bad("walk-order", "%r walked before its child %r" % (p, c))
+                return
+
+
+def deep_cases(tier):
+    out = []
+    for depth in (8, 9, 10, 11, 12):
+        n = 2 ** (depth - 1)
+        for apex in [(depth - 1, 0, 0), (depth - 1, n - 1, n // 2), (depth - 2, n // 2 - 1, n // 4), (depth, 2 * n - 1, 3)]:
+            for kind in ("generic", "toast"):
+                for cs in ((None, "planetary") if kind == "toast" else (None,)):
+                    if cs == "planetary" and tier == "quick" and depth not in (9, 10):
+                        continue
+                    out.append((kind, depth, apex, cs))
+    return out
+
+
 def algebra(depth, part):
     """pos_parent / pos_children / is_subtile / generate_pos mutually consistent."""
     from toasty.pyramid import Pos, pos_parent, pos_children, is_subtile, generate_pos
@@ -236,6 +297,11 @@ def _work(job):
     if job[0] == "algebra":
         algebra(job[1], part)
         return part
+    if job[0] == "deep":
+        for (kind, depth, apex, cs) in job[1]:
+            deep_case(kind, depth, apex, cs, part)
+        part.sample({"deep": True, "kind": job[1][0][0], "depth": job[1][0][1], "apex": job[1][0][2]})
+        return part
     cache = {}
     chunk = sorted(job[1], key=lambda c: (c[0], c[1], repr(c[2]), repr(c[4])))
     for i, (kind, depth, acc, apex, cs, _fixed) in enumerate(chunk):
@@ -249,7 +315,7 @@ def run(tier, seed):
     rep = Report(PROP, tier, seed, "exploration")
     rep.rule = (
         "every (kind, depth, effective filter, apex) of the C01 enumeration: counts vs callbacks vs reference quadtree vs closed forms, "
-        "generator order/uniqueness, sub-pyramid vs full; plus position algebra on every pair of positions to depth %d; "
+        "generator order/uniqueness, sub-pyramid vs full; deep pyramids (depth 8..12, generic and TOAST) restricted to apexes 0-2 levels above the leaves; plus position algebra on every pair of positions to depth %d; "
         "non-trivial = filtered or sub-pyramid case with live tiles, or a pair/position below the root" % (4 if tier == "quick" else 5)
     )
     rep.assumptions = ["depth-2 filters are exhaustive (17^4, both coordinate systems in thorough); depth-3 filters are exhaustive inside each single level-1 quadrant (thorough)"]
@@ -265,6 +331,8 @@ def run(tier, seed):
     cases = rng_order(cases, seed)
     n = par.ncores() * 3
     jobs = [("algebra", 4 if tier == "quick" else 5)] + [("cases", cases[i::n]) for i in range(n)]
+    dc = deep_cases(tier)
+    jobs += [("deep", dc[i::8]) for i in range(8)]
     par.pmap(_work, jobs, rep)
     return rep.finish()
 
@@ -274,6 +342,8 @@ def replay(payload):
     part = Part()
     if "kind" not in r:
         algebra(r["depth"], part)
+    elif r.get("deep"):
+        deep_case(r["kind"], r["depth"], tuple(r["apex"]), r.get("coordsys"), part)
     else:
         acc = r.get("accepted")
         if acc is not None:
